@@ -140,6 +140,7 @@ func paramIndex(sig *types.Signature, name string) int {
 
 func runC08(c *Ctx) {
 	defer c08EnabledListUntouched(c)
+	defer c08OfflineDisablesUnconditionally(c)
 	defer c09NoStateDefaultInIsMatch(c, "C08-R6")
 	defer checkParamsUsed(c, "C08-R1", "internal/config.newParsedRule", "internal/config.baseParsedRule")
 	defer checkSearchFlags(c, "C08-R4", "internal/config.Config.DisableOnlineChecks", "internal/config.Config.SetDisabledChecks")
@@ -920,4 +921,60 @@ func typeQNameOrString(t types.Type) string {
 		return q
 	}
 	return t.String()
+}
+
+// c08OfflineDisablesUnconditionally: `--offline` is the same as disabling the
+// documented online checks by name, whatever else the configuration holds. In
+// actionSetup the call of Config.DisableOnlineChecks stands under the offline
+// flag and nothing else: a further condition (no prometheus{} block, nothing to
+// discover) leaves online checks that need no server — promql/range_query,
+// rule/link — switched on although they would have been off by name.
+func c08OfflineDisablesUnconditionally(c *Ctx) {
+	R := "C08-R4"
+	fi := c.MustFunc(R, "cmd/pint.actionSetup")
+	if fi == nil {
+		return
+	}
+	info := fi.Pkg.TypesInfo
+	pm := parentMap(fi.Decl.Body)
+	n := 0
+	ast.Inspect(fi.Decl.Body, func(nd ast.Node) bool {
+		call, ok := nd.(*ast.CallExpr)
+		if !ok || !isCallTo(info, call, "internal/config.Config.DisableOnlineChecks") {
+			return true
+		}
+		n++
+		other := ""
+		offline := false
+		for _, g := range lexicalGuards(pm, call, fi.Decl.Body) {
+			isOff := false
+			ast.Inspect(g.E, func(m ast.Node) bool {
+				switch x := m.(type) {
+				case *ast.Ident:
+					if k, isC := info.Uses[x].(*types.Const); isC && k.Name() == "offlineFlag" {
+						isOff = true
+					}
+				case *ast.SelectorExpr:
+					if x.Sel.Name == "isOffline" {
+						isOff = true
+					}
+				}
+				return true
+			})
+			_, isCall := ast.Unparen(g.E).(*ast.CallExpr)
+			_, isSel := ast.Unparen(g.E).(*ast.SelectorExpr)
+			if isOff && g.Truth && (isCall || isSel) {
+				offline = true
+				continue
+			}
+			if isOff {
+				continue // a compound condition that mentions the flag: its other members are judged on their own
+			}
+			other = roleStr(info, g.E)
+		}
+		c.Check(offline && other == "", R, "actionSetup:--offline disables the online checks whatever the configuration", call.Pos(), "guarded by the offline flag only",
+			"DisableOnlineChecks() also depends on `"+other+"`: with --offline some checks of the documented online list stay enabled (those that need no server, e.g. promql/range_query with a configured maximum), so --offline no longer equals disabling that list by name")
+		return true
+	})
+	c.Check(n == 1, R, "actionSetup:one DisableOnlineChecks call", fi.Decl.Pos(), itoa(n), "expected exactly one call of DisableOnlineChecks in actionSetup")
 }
